@@ -3,6 +3,7 @@ package main
 import (
 	"fmt"
 	"go/constant"
+	"go/token"
 	"strings"
 
 	"golang.org/x/tools/go/ssa"
@@ -134,6 +135,30 @@ func rulesC14(w *World, r *Report) {
 				}
 			}
 		}
+		// the slice a decoder loop fills was made with the loop's count (and stored to the destination) before the loop
+		if bad == "" {
+			for _, dn := range d.nested {
+				if !dn.loop || dn.pos == nil {
+					continue
+				}
+				c, ok := dn.pos.(ssa.CallInstruction)
+				if !ok || len(c.Common().Args) == 0 {
+					continue
+				}
+				ia, ok := c.Common().Args[0].(*ssa.IndexAddr)
+				if !ok {
+					continue
+				}
+				ce := &codecEngine{w: w}
+				ms := ce.madeWith(ia.X, dn.pos)
+				switch {
+				case ms == nil:
+					bad = "the elements decoded in the loop go into " + newExprCtx(w).expr(ia.X) + ", which is not a slice made for them before the loop (index out of range, or stale elements kept)"
+				case newExprCtx(w).expr(stripConvert(ms.Len)) != dn.count:
+					bad = "the slice filled by the loop is made with length " + newExprCtx(w).expr(stripConvert(ms.Len)) + " but the loop decodes " + dn.count + " elements"
+				}
+			}
+		}
 		if bad != "" {
 			r.Violate("C14.R1", typ+":symmetry", w.pos(d.fn.Pos()), typ+": "+bad+". encoder layout ["+layoutString(e)+"], decoder layout ["+layoutString(d)+"]")
 		} else {
@@ -207,6 +232,77 @@ func rulesC14(w *World, r *Report) {
 			r.Check(okInv, "C14.R1c", "archiveCount@"+funcName(f), w.instrPos(st), "archiveCount = len(archiveInfoList)", "Header.archiveCount is set to "+val+" without the archive list having that length: the encoded count and the encoded list disagree")
 		})
 	}
+	// R6: the decoder accepts what the encoder writes
+	r.Rule("C14.R6", "round trip: the validation inside TimeSeries.TakeFrom rejects only what AppendTo never writes for a well-formed series (step <= 0, untilTime < fromTime), and accepts the all-zero series AppendTo writes for an absent one (decision diagram)", 2)
+	if tf := need(w, r, "C14.R6", w.Lib, "TimeSeries.TakeFrom"); tf != nil {
+		ruleRejectsOnlyMalformed(w, r, "C14.R6", tf, []rejectEntry{
+			{"p0.untilTime", "p0.fromTime", []int{-1}, "a well-formed series (untilTime >= fromTime) is rejected, so what AppendTo wrote does not decode"},
+			{"p0.step", "0", []int{-1, 0}, "a series with a positive step is rejected, so what AppendTo wrote does not decode"},
+		})
+	}
+	if tf := fn(w.Lib, "TimeSeries.TakeFrom"); tf != nil {
+		// the zero series (what AppendTo writes for an absent series) decodes successfully
+		e := &ddEngine{w: w, env: map[ssa.Value]aval{}, maxLeafs: 512, maxAtoms: 12, stop: isLoopHeader} // the value loop lies behind the validation
+		e.run(tf)
+		bad := ""
+		if e.err != nil {
+			bad = "cannot evaluate: " + e.err.Error()
+		}
+		seen := false
+		idx := errResultIndex(tf)
+		for _, l := range e.leaves {
+			if l.ret == nil || idx < 0 {
+				continue
+			}
+			zero := map[string]bool{}
+			other := false
+			for k, chosen := range l.atoms {
+				v, neg := stripNot(l.atomVal[k])
+				bo, ok := v.(*ssa.BinOp)
+				if !ok {
+					continue
+				}
+				xs, ys := newExprCtx(w).expr(bo.X), newExprCtx(w).expr(bo.Y)
+				fld := ""
+				for _, f := range []string{"step", "fromTime", "untilTime"} {
+					if (xs == "p0."+f && ys == "0") || (ys == "p0."+f && xs == "0") {
+						fld = f
+					}
+				}
+				if fld == "" {
+					// a failed nested decode or a short buffer is another story
+					if (bo.Op == token.NEQ || bo.Op == token.EQL) && (isNilConst(bo.X) || isNilConst(bo.Y)) && (chosen != neg) == (bo.Op == token.NEQ) {
+						other = true
+					}
+					if bo.Op == token.LSS && chosen != neg && strings.HasPrefix(xs, "len(") {
+						other = true
+					}
+					continue
+				}
+				if bo.Op == token.EQL || bo.Op == token.NEQ {
+					if (chosen != neg) == (bo.Op == token.EQL) {
+						zero[fld] = true
+					}
+				} else if bo.Op == token.LEQ && xs == "p0."+fld && chosen != neg {
+					// x <= 0 on an unsigned/non-negative field
+				}
+			}
+			if debugPred {
+				fmt.Println("DEBUG zero-series leaf", zero, other, l.atoms)
+			}
+			if other || !(zero["step"] && zero["fromTime"] && zero["untilTime"]) {
+				continue
+			}
+			seen = true
+			if !isNilConst(l.ret.Results[idx]) {
+				bad = "the all-zero series (the encoding of an absent series) is rejected at " + w.instrPos(l.ret)
+			}
+		}
+		if bad == "" && !seen {
+			bad = "no path recognises the all-zero series (the encoding of an absent series): it falls through to the positive-step test and is rejected"
+		}
+		r.Check(bad == "", "C14.R6", "whispertool.TimeSeries.TakeFrom:zero-series", w.pos(tf.Pos()), "step = from = until = 0 decodes to an absent series", "TimeSeries.TakeFrom: "+bad+" — what AppendTo writes for an unselected archive no longer decodes, and remote view/sum of such an archive fails where the local one succeeds")
+	}
 	// R5 retry
 	r.Rule("C14.R5", "readHeader calls Header.TakeFrom at most twice, never inside a loop, the retry reads exactly WantedBufSize bytes and returns the second error", 1)
 	if rh := need(w, r, "C14.R5", w.Lib, "Whisper.readHeader"); rh != nil {
@@ -224,6 +320,66 @@ func rulesC14(w *World, r *Report) {
 				okRetry = false
 			}
 		}
+		// the retry buffer holds the wanted size: a slice bound taken from WantedBufSize is applied to a buffer made
+		// with that size, or one the controlling test found at least that long
+		bad := ""
+		eachInstr(rh, func(in ssa.Instruction) {
+			sl, ok := in.(*ssa.Slice)
+			if !ok || sl.High == nil || !strings.Contains(newExprCtx(w).expr(sl.High), "WantedBufSize") {
+				return
+			}
+			holds := func(v ssa.Value) bool {
+				mk, ok := stripChangeType(v).(*ssa.MakeSlice)
+				return ok && stripConvert(mk.Len) == stripConvert(sl.High)
+			}
+			ph, isPhi := sl.X.(*ssa.Phi)
+			if !isPhi {
+				if !holds(sl.X) {
+					bad = "slices " + newExprCtx(w).expr(sl.X) + " to the wanted size without growing it (" + w.instrPos(sl) + ")"
+				}
+				return
+			}
+			for i, ev := range ph.Edges {
+				if holds(ev) {
+					continue
+				}
+				p := ph.Block().Preds[i]
+				okEdge := false
+				if iff, ok := p.Instrs[len(p.Instrs)-1].(*ssa.If); ok {
+					cond, neg := stripNot(iff.Cond)
+					if bo, ok := cond.(*ssa.BinOp); ok && isCmp(bo.Op) {
+						onTrue := (ph.Block() == p.Succs[0]) != neg
+						isLenOf := func(v ssa.Value) bool {
+							c, ok := v.(*ssa.Call)
+							if !ok {
+								return false
+							}
+							b, ok := c.Common().Value.(*ssa.Builtin)
+							return ok && (b.Name() == "len" || b.Name() == "cap") && c.Common().Args[0] == ev
+						}
+						flip := 0
+						switch {
+						case stripConvert(bo.X) == stripConvert(sl.High) && isLenOf(bo.Y):
+							flip = 1
+						case stripConvert(bo.Y) == stripConvert(sl.High) && isLenOf(bo.X):
+							flip = -1
+						}
+						if flip != 0 {
+							okEdge = true
+							for sg := -1; sg <= 1; sg++ {
+								if signOK(bo.Op, sg*flip) == onTrue && sg > 0 {
+									okEdge = false // wanted > len reaches the slice
+								}
+							}
+						}
+					}
+				}
+				if !okEdge {
+					bad = "keeps the first buffer although it may be shorter than the wanted size (" + w.instrPos(sl) + ")"
+				}
+			}
+		})
+		r.Check(bad == "", "C14.R5", "readHeader:retry-buffer", w.pos(rh.Pos()), "the retry buffer is at least WantedBufSize long", "readHeader "+bad+": a header longer than one page makes Open panic instead of decoding")
 		r.Check(okRetry, "C14.R5", "readHeader:retry-once", w.pos(rh.Pos()), "one retry with the wanted size, no loop", fmt.Sprintf("readHeader's retry protocol is not 'decode, on want-larger read that size once and decode again' (%d TakeFrom calls, in loop: %v)", len(calls), inLoop))
 	}
 }
